@@ -9,6 +9,7 @@ package main
 // decides whether the log is a run of the transition system the theorems are about.
 
 import (
+	"bytes"
 	"fmt"
 	"math/rand"
 	"os"
@@ -96,21 +97,24 @@ func scriptOf(o Op) clientScript {
 // ---------- one run ----------
 
 type clientRun struct {
-	mu       sync.Mutex
-	cond     *sync.Cond
-	sc       clientScript
-	log      []string
-	done     bool
-	stopped  bool
-	nextConn int
-	iConn    int
-	iSend    int
-	iAck     int
-	iPing    int
-	iPert    int
-	consumed int
-	lastEv   time.Time
-	stopCh   chan struct{}
+	blackholed    bool          // inside a connect attempt that ignores the stop
+	pendingAtStop bool          // such an attempt was in progress when the stop was requested
+	finishedCh    chan struct{} // closed by OnFinished
+	mu            sync.Mutex
+	cond          *sync.Cond
+	sc            clientScript
+	log           []string
+	done          bool
+	stopped       bool
+	nextConn      int
+	iConn         int
+	iSend         int
+	iAck          int
+	iPing         int
+	iPert         int
+	consumed      int
+	lastEv        time.Time
+	stopCh        chan struct{}
 }
 
 func (r *clientRun) ev(format string, a ...interface{}) {
@@ -284,6 +288,18 @@ func (r *clientRun) open() (baseoutput.ClosableClientConnection, error) {
 	r.perturb()
 	r.mu.Lock()
 	o := pick(r.sc.connects, &r.iConn, 'o')
+	if o == 'B' {
+		// a black-holed address: the attempt does not return before its own (long) timeout, stop request or not
+		r.blackholed = true
+		r.mu.Unlock()
+		select {
+		case <-r.finishedCh:
+		case <-time.After(1500 * time.Millisecond):
+		}
+		r.mu.Lock()
+		r.blackholed = false
+		o = 'f'
+	}
 	if o == 'b' {
 		r.mu.Unlock()
 		select {
@@ -309,7 +325,7 @@ func (r *clientRun) open() (baseoutput.ClosableClientConnection, error) {
 }
 
 // runClient executes one script against the real client; returns q, taken and the event log.
-func runClient(sc clientScript) (q []int, taken []int, log []string, hang bool) {
+func runClient(sc clientScript) (q []int, taken []int, log []string, hang bool, metrics string) {
 	clientSigOnce.Do(func() {
 		ch := make(chan os.Signal, 16)
 		signal.Notify(ch, syscall.SIGUSR1) // SIGUSR1 must never hit the default action
@@ -327,12 +343,13 @@ func runClient(sc clientScript) (q []int, taken []int, log []string, hang bool) 
 	prev := runtime.GOMAXPROCS(sc.procs)
 	defer runtime.GOMAXPROCS(prev)
 
-	r := &clientRun{sc: sc, stopCh: make(chan struct{})}
+	r := &clientRun{sc: sc, stopCh: make(chan struct{}), finishedCh: make(chan struct{})}
 	r.cond = sync.NewCond(&r.mu)
 	input := make(chan base.LogChunk, sc.n+1)
 	inputClosed := channels.NewSignalAwaitable()
 	finished := make(chan struct{})
 	clientSeq++
+	mf := promreg.NewMetricFactory(fmt.Sprintf("vcl%d_", clientSeq), nil, nil)
 	worker := baseoutput.NewClientWorker(logger.WithField("verif", "client"),
 		base.ChunkConsumerArgs{
 			InputChannel: input,
@@ -355,9 +372,10 @@ func runClient(sc clientScript) (q []int, taken []int, log []string, hang bool) 
 				r.done = true
 				r.mu.Unlock()
 				close(finished)
+				close(r.finishedCh)
 			},
 		},
-		promreg.NewMetricFactory(fmt.Sprintf("vcl%d_", clientSeq), nil, nil),
+		mf,
 		r.open, time.Duration(sc.maxDurMs)*time.Millisecond)
 	worker.Start()
 
@@ -388,7 +406,7 @@ func runClient(sc clientScript) (q []int, taken []int, log []string, hang bool) 
 		for fed < sc.n && n >= sc.feed[fed] {
 			fed++
 			q = append(q, fed)
-			input <- base.LogChunk{ID: chunkID(fed), Data: []byte{byte(fed)}}
+			input <- base.LogChunk{ID: chunkID(fed), Data: bytes.Repeat([]byte{byte(fed)}, fed)} // chunk n is n bytes long
 		}
 		if !usr1 && n >= sc.usr1At {
 			usr1 = true
@@ -414,9 +432,11 @@ func runClient(sc clientScript) (q []int, taken []int, log []string, hang bool) 
 		r.cond.Wait()
 	}
 	r.stopped = true
+	r.pendingAtStop = r.blackholed
 	r.ev("st")
 	r.mu.Unlock()
 	close(r.stopCh)
+	stopAt := time.Now()
 	inputClosed.Signal()
 	if sc.closeChan {
 		close(input)
@@ -426,6 +446,7 @@ func runClient(sc clientScript) (q []int, taken []int, log []string, hang bool) 
 	case <-time.After(8 * time.Second):
 		hang = true
 	}
+	stopLatency := time.Since(stopAt)
 	r.mu.Lock()
 	r.done = true
 	log = append([]string{}, r.log...)
@@ -453,7 +474,22 @@ drain:
 	for i := 1; i <= sc.n; i++ {
 		q = append(q, i)
 	}
-	return q, taken, log, hang
+	if !hang {
+		m := dumpCounters(mf)
+		get := func(name string) int64 {
+			for k, v := range m {
+				if strings.HasSuffix(k, name) {
+					return v
+				}
+			}
+			return 0
+		}
+		metrics = fmt.Sprintf("M:%d:%d:%d:%d", get("forwarded_chunks_total"), get("forwarded_chunk_bytes_total"), get("acknowledged_chunks_total"), get("acknowledged_chunk_bytes_total"))
+		if r.pendingAtStop {
+			metrics += fmt.Sprintf(":P%d", stopLatency.Milliseconds())
+		}
+	}
+	return q, taken, log, hang, metrics
 }
 
 func joinInts(xs []int) string {
@@ -472,10 +508,13 @@ func (c *clientComp) Impl(cs Case) []string {
 	out := make([]string, 0, len(cs.Ops))
 	for _, o := range cs.Ops {
 		sc := scriptOf(o)
-		q, taken, log, hang := runClient(sc)
+		q, taken, log, hang, metrics := runClient(sc)
 		line := joinInts(q) + " " + joinInts(taken) + " " + strings.Join(log, " ")
 		if hang {
 			line += " HANG"
+		}
+		if metrics != "" {
+			line += " " + metrics
 		}
 		out = append(out, line)
 	}
@@ -490,6 +529,9 @@ func (c *clientComp) Derive(cs Case, implOut []string) ([]Op, []string) {
 		toks := strings.Fields(line)
 		if len(toks) < 2 {
 			continue
+		}
+		if strings.HasPrefix(toks[len(toks)-1], "M:") {
+			toks = toks[:len(toks)-1]
 		}
 		if toks[len(toks)-1] == "HANG" {
 			toks = toks[:len(toks)-1]
@@ -531,6 +573,44 @@ func clientOracle(line string) string {
 	}
 	taken := parse(toks[1])
 	evs := toks[2:]
+	var mtok string
+	if n := len(evs); n > 0 && strings.HasPrefix(evs[n-1], "M:") {
+		mtok, evs = evs[n-1], evs[:n-1]
+	}
+	if mtok != "" {
+		// C19: the client's counters against what the (scripted) upstream saw; chunk n is n bytes long
+		var sendN, sendB, consN, consB int64
+		for _, e := range evs {
+			f := strings.Split(e, ":")
+			switch {
+			case f[0] == "s" && len(f) == 3:
+				v, _ := strconv.ParseInt(f[2], 10, 64)
+				sendN++
+				sendB += v
+			case f[0] == "c" && len(f) == 2:
+				v, _ := strconv.ParseInt(f[1], 10, 64)
+				consN++
+				consB += v
+			}
+		}
+		var fw, fwB, ak, akB int64
+		fmt.Sscanf(mtok, "M:%d:%d:%d:%d", &fw, &fwB, &ak, &akB)
+		if i := strings.Index(mtok, ":P"); i > 0 {
+			// C18: a connect attempt that does not return (black-holed address; its own timeout is 1.5 s here, a minute in
+			// production) was in progress at the stop request: the client must finish without waiting for it
+			if ms, _ := strconv.ParseInt(mtok[i+2:], 10, 64); ms > 700 {
+				return fmt.Sprintf("[key=client-stop-waits-for-connect] the client finished %d ms after the stop request: it waited for a connection attempt that ignores the stop (every other timeout of this run is 20 ms or less)", ms)
+			}
+		}
+		switch {
+		case ak != consN || akB != consB:
+			return fmt.Sprintf("[key=metric-client-acknowledged] acknowledged %d chunks / %d bytes, the chunks reported delivered are %d / %d bytes", ak, akB, consN, consB)
+		case fw > sendN || fwB > sendB:
+			return fmt.Sprintf("[key=metric-client-forwarded] forwarded %d chunks / %d bytes, completely transmitted were %d / %d bytes", fw, fwB, sendN, sendB)
+		case fw < ak || fwB < akB:
+			return fmt.Sprintf("[key=metric-client-forwarded] forwarded %d chunks / %d bytes is less than acknowledged %d / %d bytes", fw, fwB, ak, akB)
+		}
+	}
 	resolved := map[int]string{}
 	sentOK := map[string]bool{}  // "k:c"
 	lastSent := map[string]int{} // per connection
@@ -654,14 +734,16 @@ func (c *clientComp) Generate(rng *rand.Rand, n int, emit func(Case)) {
 	}
 	// corpus: the stories behind the mechanisms
 	mk(clientScript{n: 3, procs: 2, stopAt: -1}, "corpus")
-	mk(clientScript{n: 3, procs: 2, stopAt: -1, sends: "oe"}, "corpus")               // send error with a chunk in hand
-	mk(clientScript{n: 3, procs: 2, stopAt: -1, acks: "ie"}, "corpus")                // ACK read error with pending chunks
-	mk(clientScript{n: 3, procs: 2, stopAt: -1, acks: "w"}, "corpus")                 // unknown id
-	mk(clientScript{n: 4, procs: 2, stopAt: -1, acks: "nn"}, "corpus")                // out-of-order ACKs
-	mk(clientScript{n: 3, procs: 2, stopAt: 4, acks: "b"}, "corpus")                  // hung ACK read, stop
-	mk(clientScript{n: 5, procs: 1, stopAt: -1, maxDurMs: 2, acks: "ibib"}, "corpus") // soft reconnect with hung ACK
-	mk(clientScript{n: 3, procs: 2, stopAt: 2, connects: "ffo"}, "corpus")            // connect failures
-	mk(clientScript{n: 12, procs: 8, stopAt: -1, acks: "bbbbbbbbbbbbb"}, "corpus")    // acknowledger channel fills up
+	mk(clientScript{n: 3, procs: 2, stopAt: -1, sends: "oe"}, "corpus")                  // send error with a chunk in hand
+	mk(clientScript{n: 3, procs: 2, stopAt: -1, acks: "ie"}, "corpus")                   // ACK read error with pending chunks
+	mk(clientScript{n: 3, procs: 2, stopAt: -1, acks: "w"}, "corpus")                    // unknown id
+	mk(clientScript{n: 4, procs: 2, stopAt: -1, acks: "nn"}, "corpus")                   // out-of-order ACKs
+	mk(clientScript{n: 3, procs: 2, stopAt: 4, acks: "b"}, "corpus")                     // hung ACK read, stop
+	mk(clientScript{n: 5, procs: 1, stopAt: -1, maxDurMs: 2, acks: "ibib"}, "corpus")    // soft reconnect with hung ACK
+	mk(clientScript{n: 3, procs: 2, stopAt: 2, connects: "ffo"}, "corpus")               // connect failures
+	mk(clientScript{n: 2, procs: 2, stopAt: -1, connects: "B"}, "corpus")                // stop while the first connect attempt hangs
+	mk(clientScript{n: 3, procs: 2, stopAt: -1, connects: "ofB", sends: "oe"}, "corpus") // … and after a session has failed
+	mk(clientScript{n: 12, procs: 8, stopAt: -1, acks: "bbbbbbbbbbbbb"}, "corpus")       // acknowledger channel fills up
 	mk(clientScript{n: 4, procs: 2, stopAt: -1, sends: "ooe", acks: "b", usr1At: 3}, "corpus")
 	mk(clientScript{n: 3, procs: 2, stopAt: 6, sends: "oeoe", closeChan: true}, "corpus") // resend interrupted
 	letters := func(alpha string, weights []int, maxLen int) string {
